@@ -8,3 +8,5 @@ import Gossamer.Props.C17
 #print axioms Gossamer.C17.C17_unfin_below_head
 #print axioms Gossamer.C17.C17_number_lookup
 #print axioms Gossamer.C17.C17_history
+#print axioms Gossamer.C17.C17_head_trie_kept
+#print axioms Gossamer.C17.C17_shared_root_evicts_head_trie
